@@ -90,14 +90,23 @@ Record jtable := mkJT { jt_min : Z; jt_offsets : list Z }.
 Record upidx := mkUp { u_pos : N; u_size : N; u_isc : bool }.
 
 Record fn := mkFn { f_pwords : N; f_nparam : N; f_nret : N; f_code : list instr; f_consts : list Z;
-                    f_jt : list jtable; f_ssize : N; f_up : list upidx }.
+                    f_jt : list jtable; f_ssize : N; f_up : list upidx; f_ew : list (N * N) }.
+
+(* `f_ew` is NOT a field of FuncProto either: an untrusted annotation (program counter, element width in words) for the
+   GetArrayElem / SetArrayElem instructions, whose operand width is the elem_word_size of the array they meet at run time.
+   Only the verifier and the instrumented semantics of Bvm/XModel.v (DynElemWidth) read it. *)
+Definition ew_hint (f : fn) (pc : N) : option N :=
+  match find (fun e => fst e =? pc) (f_ew f) with Some e => Some (snd e) | None => None end.
 
 (* an entry of Program.ext_fun_table as the model sees it: a pure function that reads `arity` argument words and
    leaves ONE result word (runtime get_now / get_samplerate, the f64 -> f64 builtins), or anything else *)
 Inductive ext_kind := ExtPure (code arity : N) | ExtOther
 (* a builtin on Machine.arrays (plugin/builtin_functins.rs len split_head split_tail prepend append and their
    `$arityN` specialisations): given a meaning by Bvm/XModel.v only *)
-| ExtArr (op ew : N).
+| ExtArr (op ew : N)
+(* the scheduler plugin's `_mimium_schedule_at` (mimium-scheduler SimpleScheduler::schedule_at): reads a time and a heap
+   handle, resolves the closure behind the handle, queues a task, returns no word: Bvm/XModel.v only *)
+| ExtSched.
 
 (* types::Type as clone_usersum_recursive / release_usersum_recursive see it: Boxed(inner), UserSum { name, variants }
    (payload type per variant), Tuple / Record (word size and type of every element), TypeAlias(name), anything else *)
@@ -127,7 +136,7 @@ Record arith := mkArith {
 (* ---------- faults ---------- *)
 (* Faults whose absence depends on the VALUE a register or an upvalue cell holds at run time (a handle, a callable, the
    words of a cell), which no static check on untyped bytecode decides; the soundness theorem of the closure layer
-   (Bvm/XSound*.v) excludes exactly these.  The last four are raised by the instrumented (`strict`) semantics of
+   (Bvm/XSound*.v) excludes exactly these.  The last five are raised by the instrumented (`strict`) semantics of
    Bvm/XModel.v only: the real VM makes no such check and goes on. *)
 Inductive dynfault :=
 | DynHandle         (* a stale ClosureIdx / HeapIdx / ArrayIdx is dereferenced, or the object is smaller than the access:
@@ -141,10 +150,13 @@ Inductive dynfault :=
                        result words, a plain function that expects upvalues or more state than the caller has left) *)
 | DynReentry        (* strict: a closure is entered while the cursor of its own state storage is not at 0 *)
 | DynOpenWrite      (* strict: SetUpValue through an OPEN cell (a write into another activation's registers) *)
-| DynCellWidth.     (* strict: an upvalue cell is not as wide as the running function's upindexes entry declares *)
+| DynCellWidth      (* strict: an upvalue cell is not as wide as the running function's upindexes entry declares *)
+| DynElemWidth.     (* strict: the array GetArrayElem / SetArrayElem meets has another elem_word_size than the annotation
+                       `f_ew` gives for this program counter; an unspecialised split_head / split_tail meets an array
+                       whose elements are not one word wide *)
 
 Definition strict_only (d : dynfault) : bool :=
-  match d with DynSignature | DynReentry | DynOpenWrite | DynCellWidth => true | _ => false end.
+  match d with DynSignature | DynReentry | DynOpenWrite | DynCellWidth | DynElemWidth => true | _ => false end.
 
 Inductive fault :=
 | StackReadOOB      (* get_stack / get_stack_range / copy_within index panic *)
@@ -266,7 +278,7 @@ Section Exec.
         | Some iv =>
             match rd1 (p_ext p) (Z.to_N iv) with
             | None => LFault ExtIndexOOB
-            | Some ExtOther | Some (ExtArr _ _) => LUnsup UnsupExt
+            | Some ExtOther | Some (ExtArr _ _) | Some ExtSched => LUnsup UnsupExt
             | Some (ExtPure code arity) =>
                 let base' := base + fr + 1 in
                 if (nargs =? 0) || (base' + nargs <=? lenN (m_stack m)) then
